@@ -32,6 +32,8 @@ ASSUMPTIONS = [
     "after exactly one more delivery has arrived while it was paused",
     "an oversize notification for a still incomplete line is accepted (not required) once the bytes seen cannot "
     "be completed to a line within MAX_LENGTH; for netstrings a too-large partial length may or may not close early",
+    "every message / raw chunk / oversize notification is tagged when it arrives between the receiver's own "
+    "pauseProducing() and the matching resumeProducing(); the reference never has such an event",
     "oversize notification arguments are ignored except IntNStringReceiver.lengthLimitExceeded(length)",
 ]
 MIN = {"quick": {"evaluations": 2700000, "nontrivial": 400000, "outcomes": 10},
@@ -77,9 +79,12 @@ class Rec:
     """Recording/scripted behaviour shared by all receivers under test."""
     pausable = False
     harness_paused = False
+    in_pause = False        # between our pauseProducing() and the matching resumeProducing()
     cap = 64
 
     def ev(self, e):
+        if self.in_pause and e[0] in "MRX":
+            e = e + ("while-paused",)
         self.log.append(e)
         if len(self.log) > self.cap:
             raise Runaway()
@@ -89,9 +94,12 @@ class Rec:
             self.transport.loseConnection()
         elif self.pausable and msg == b"p":
             self.pauseProducing()
+            self.in_pause = True
             self.harness_paused = True
         elif self.pausable and msg == b"P":
             self.pauseProducing()
+            self.in_pause = True
+            self.in_pause = False
             self.resumeProducing()
 
 
@@ -179,8 +187,8 @@ def make(kind, maxlen, delim):
 def normalise(log):
     out = []
     for e in log:
-        if e[0] == "R" and out and out[-1][0] == "R":
-            out[-1] = ("R", out[-1][1] + e[1])
+        if e[0] == "R" and out and out[-1][0] == "R" and len(e) == len(out[-1]):
+            out[-1] = ("R", out[-1][1] + e[1]) + e[2:]
         elif e[0] == "R" and not e[1]:
             continue
         else:
@@ -200,6 +208,7 @@ def execute(kind, maxlen, delim, segs, late=False):
         n = 0
         while p.harness_paused and not t.disconnecting and n < 40:
             p.harness_paused = False
+            p.in_pause = False
             p.resumeProducing()
             n += 1
     try:
@@ -331,6 +340,8 @@ def classify(kind, maxlen, delim, stream, segs, got, req, opt, frames):
     if got == req or (opt is not None and got == req + opt):
         return None
     name = NAMES[kind]
+    if any(e[-1] == "while-paused" for e in got):
+        return name + ":delivered-between-pauseProducing-and-resumeProducing"
     if got and got[-1] == ("RUNAWAY",):
         if kind.startswith("int") and ("M", b"P") in req:
             return KNOWN_INTN
